@@ -481,6 +481,17 @@ PROPS = {
                         'user memory is a byte store'],
         'explanation': 'Gen.executeOne_sw_fd c0 b (swapXY s) = (Gen.executeOne_sw_dd c0 b s) with IX/IY exchanged, for every second byte (CB sub-tables included) and every state, identical log; neither table reads or writes the other index register',
     },
+    'C09': {
+        'targets': ['Z80.Props.C09'],
+        'count': ALL_OBL + ['Z80/Proofs/Block.lean', 'Z80/Proofs/RunLoop.lean', 'Z80/Props/C09.lean'],
+        'correspond': corr_stream([('block', 250, 4000, ['-per', '2']), ('slots', 6, 60, ['-tables', 'ed', '-ops', 'a0,a1,a2,a3,a8,a9,aa,ab,b0,b1,b2,b3,b8,b9,ba,bb'])], want_spec=True,
+                                  rule='one vector = a block instruction run to completion by repeated CPU.Step on the real code (counts 1..600, byte boundaries 0x0100/0x0200/0x0201, B=0, two full-length runs of 65535/65536 Steps), '
+                                       'HL/DE with overlap distances -3..+3, pointers covering the instruction itself and wrapping at 0xFFFF, planted match bytes for CPIR/CPDR, random memory and device; '
+                                       'final registers, complete written memory, ordered bus/port log hash compared with the regenerated model and with the reference'),
+        'assumptions': ['the closed forms exclude copies / inputs whose destination overwrites the two bytes of the running instruction (self-modification); the one-element-per-Step theorems and the correspondence include them',
+                        'undocumented flag bits of block I/O are implementation-defined (Impl.koron: taken from the incoming F)'],
+        'explanation': 'one Step = exactly one element for all 16 block instructions (explicit post-state); by induction over the count: LDIR/LDDR copy exactly BC bytes in order (overlap propagation), CPIR/CPDR stop at the first match or BC=0, OTIR/OTDR and INIR/INDR move exactly B bytes through port C; PC parked on the instruction until done',
+    },
     'C16': {
         'targets': ['Z80.Props.C16'],
         'count': ['Z80/Props/C16.lean'],
